@@ -55,6 +55,8 @@ class FakeTime:
 CF_POOL = {                      # id -> (args, kwargs) as the caller passes them
     "a": (("foo", "bar"), {}),
     "b": (("foo2",), {"k": 1}),
+    "kw1": (("foo", "bar"), {"k": 1}),          # the arguments of "a" plus a keyword
+    "kw2": (("foo", "bar"), {"k": 2}),
     "t12": (((1, 2),), {}),
     "l12": (([1, 2],), {}),
     "set": (({1, 2},), {}),
@@ -299,9 +301,9 @@ class RealND:
 
 # ----------------------------------------------------------------------------- model configuration
 
-PB_STEPS = {"pb1": 2, "pb2": 7}
+PB_STEPS = {"pb1": 3, "pb2": 4}          # 70/3 and 70/4 are not integers: floor matters
 ND_CONFS = {"nd1": ("none", "none"), "nd2": ("lin", "log"), "nd3": ("log", "none"), "nd4": ("true", "true")}
-CF_ARGS = ["a", "t12", "l12", "set"]
+CF_ARGS = ["a", "kw1", "t12", "l12", "set"]
 
 
 def new_real(w, tag=0):
@@ -316,7 +318,7 @@ def new_real(w, tag=0):
 
 def cfg_module(thorough):
     d = 1 if thorough else 0
-    depth = {"cf": 4 + d, "cfx": 3 + d, "sw0": 5 + d, "sw1": 4 + d, "pb1": 4 + d, "pb2": 4 + d,
+    depth = {"cf": 4, "cfx": 3 + d, "sw0": 5 + d, "sw1": 4 + d, "pb1": 4 + d, "pb2": 4 + d,
              "nd1": 2 + d, "nd2": 3 + d, "nd3": 3 + d, "nd4": 2 + d}
     args = "<<" + ", ".join(f'[id |-> "{a}", json |-> {json.dumps(cf_json(a))}]' for a in CF_ARGS) + ">>"
     return f"""---- MODULE Helpers2Cfg ----
